@@ -461,6 +461,24 @@ func herodotCode(p *core.Program, v ssa.Value, depth int) (int64, string) {
 		case pk == "github.com/pkg/errors" || pk == "errors" || pk == "fmt":
 			return 0, "a plain " + pk + "." + obj.Name() + " error (rendered as 500 / Unknown)"
 		}
+		// an error constructor of the repository: every return of it carries the same status
+		if sc := x.Common().StaticCallee(); sc != nil && sc.Blocks != nil && core.FuncPkg(sc) != nil && core.IsKeto(core.FuncPkg(sc)) && sc.Signature.Results().Len() == 1 {
+			code, n := int64(-1), 0
+			core.Instrs(sc, func(_ *ssa.BasicBlock, _ int, ins ssa.Instruction) {
+				if ret, ok := ins.(*ssa.Return); ok && len(ret.Results) == 1 {
+					k, _ := herodotCode(p, ret.Results[0], depth+1)
+					if n == 0 {
+						code = k
+					} else if k != code {
+						code = 0
+					}
+					n++
+				}
+			})
+			if n > 0 && code > 0 {
+				return code, ""
+			}
+		}
 		return 0, "error from " + core.ObjName(obj)
 	case *ssa.UnOp:
 		if x.Op == token.MUL {
